@@ -51,8 +51,19 @@ def search_frame(seed, n):
         rng = Rng(seed, "c07search|%d" % k)
         g, desc = well_posed_graph(rng, noise=rng.choice([0.02, 0.05]), nv=rng.randrange(3, 10))
         world = desc["world"]
+        # "far" scenario: one landmark measurement is kilometres long while the landmark starts near the robot, so that a
+        # single Gauss-Newton step is large in world axes (one iteration only: one linear solve, no chaotic amplification)
+        far = False
+        if rng.random() < 0.3:
+            les = [e for e in desc["edges"] if e["kind"] == "landmark"]
+            if les:
+                e = rng.choice(les)
+                sc = rng.logu(1e3, 3e4)
+                e["est"] = [x * sc for x in e["est"]]
+                g = G.rebuild(desc)
+                far = True
         pose_t = {"2d": "PoseSE2", "3d": "PoseSE3", "r2": "PoseR2", "r3": "PoseR3"}[world]
-        tscale = rng.choice([1.0, 100.0, 1e4])
+        tscale = rng.choice([1.0, 100.0, 1e4, 1e6, 1e7])
         if pose_t == "PoseSE3":
             q = rng.unit_quat()
             if rng.random() < 0.3:  # near 180 degrees
@@ -70,7 +81,7 @@ def search_frame(seed, n):
         ev += 1
         w = lambda what, **kw: dict(kind="frame", what=what, match="frame:" + what, T=Tv, desc=desc, **kw)
         c1, c2 = float(g.calc_chi2()), float(g2.calc_chi2())
-        tol_c = 1e-9 * (1 + abs(c1)) * (1 + tscale * 1e-3)
+        tol_c = (1e-9 + 1e-12 * tscale) * (1 + abs(c1))
         if not abs(c1 - c2) <= tol_c:
             return w("chi2 changed", chi2=c1, chi2_transformed=c2), ev, worst
         for e1, e2 in zip(g._edges, g2._edges):
@@ -79,15 +90,22 @@ def search_frame(seed, n):
                 d[2] = math.remainder(d[2], 2 * math.pi)
             if not np.max(np.abs(d)) <= 1e-9 * (1 + tscale):
                 return w("edge error changed", error=np.asarray(e1.calc_error()).tolist(), error_transformed=np.asarray(e2.calc_error()).tolist()), ev, worst
-        kiter = rng.randrange(1, 5)
+        kiter = 1 if far else rng.randrange(1, 6)
         quiet_optimize(g, tol=0.0, max_iter=kiter, fix_first_pose=True)
         quiet_optimize(g2, tol=0.0, max_iter=kiter, fix_first_pose=True)
         if not all(np.all(np.isfinite(np.asarray(v.pose))) for v in g._vertices):
             continue
+        # tolerances calibrated on the unchanged code (5000 graphs, translations up to 1e7): rounding of coordinates of
+        # size s costs ~1e-15*s in positions (1e-10*s in the far scenario) and ~1e-15*s relative in chi2; >= 100x margin
+        mp = max(float(np.max(np.abs(np.asarray(v.pose)))) for v in g._vertices)
+        if not far:
+            c1, c2 = float(g.calc_chi2()), float(g2.calc_chi2())
+            if not abs(c1 - c2) <= (1e-9 + 1e-12 * tscale) * (1 + abs(c1)):
+                return w("chi2 after %d iteration(s) differs between the frames" % kiter, iterations=kiter, chi2=c1, chi2_transformed=c2), ev, worst
         for v1, v2 in zip(g._vertices, g2._vertices):
             exp = T + v1.pose
             dev = pose_diff(type(v1.pose).__name__, v2.pose, exp)
-            tol = 1e-7 * (1 + tscale) * (1 + float(np.max(np.abs(np.asarray(v1.pose)))))
+            tol = (1e-7 if far else 1e-11) * (1 + tscale + mp)
             worst = max(worst, dev / tol)
             if not dev <= tol:
                 return w("trajectory does not commute with the transform", iterations=kiter, vertex=v1.id, expected=np.asarray(exp).tolist(), got=np.asarray(v2.pose).tolist()), ev, worst
@@ -174,7 +192,7 @@ def search_representation(seed, n):
             for e in es:
                 e["off"] = e["off"][:3] + [-x for x in e["off"][3:]]
         elif variant == "scale_info":
-            c = rng.logu(1e-3, 1e3)
+            c = rng.logu(1e-9, 1e3)
             chi_scale = c
             for e in d2["edges"]:
                 e["info"] = (np.asarray(e["info"]) * c).tolist()
@@ -187,6 +205,27 @@ def search_representation(seed, n):
                 else:
                     out.append(e)
             d2["edges"] = out
+        if variant == "scale_info":
+            # the full run with the documented (relative) stopping rule takes the same decisions at any scale, as long as
+            # chi2 stays far above the eps in the rule's denominator: noisy measurements keep chi2 = O(c), c >= 1e-9
+            rng2 = Rng(seed, "c08scale|%d" % k)
+            gS, dS = well_posed_graph(rng2, world=world, noise=0.15 if world != "3d" else 0.04, meas_noise=0.03, nv=rng2.randrange(3, 9), cross=True)
+            dS["vertices"][0]["fixed"] = True
+            dS2 = dict(dS, edges=[dict(e, info=(np.asarray(e["info"]) * chi_scale).tolist()) for e in dS["edges"]])
+            gA, gB = G.rebuild(dS), G.rebuild(dS2)
+            tolr = rng2.choice([1e-3, 1e-4, 1e-6])
+            rA = quiet_optimize(gA, tol=tolr, max_iter=60, fix_first_pose=False)
+            rB = quiet_optimize(gB, tol=tolr, max_iter=60, fix_first_pose=False)
+            ev += 1
+            if rA.converged and math.isfinite(float(rA.final_chi2)) and float(rA.final_chi2) > 1e-6:
+                byid0 = {v.id: v for v in gB._vertices}
+                devs = [pose_diff(type(v.pose).__name__, v.pose, byid0[v.id].pose) / (1 + float(np.max(np.abs(np.asarray(v.pose))))) for v in gA._vertices]
+                # (iteration counts may legitimately differ by one on an exact plateau, where `chi2 <= chi2_prev` is decided by rounding)
+                if (not rB.converged) or max(devs) > 1e-8 or abs(float(rA.final_chi2) * chi_scale - float(rB.final_chi2)) > 1e-8 * abs(float(rB.final_chi2)):
+                    r = dict(kind="representation", what="scale_info: the optimisation result depends on the scale of the information matrices", match="repr:scale_info:optimum", scale=chi_scale, tol=tolr, iterations=[rA.num_iterations, rB.num_iterations], max_pose_deviation=max(devs), final_chi2=[float(rA.final_chi2), float(rB.final_chi2)], desc=dS)
+                    if r["match"] not in found:
+                        found[r["match"]] = r
+                        break
         gA, gB = G.rebuild(desc), G.rebuild(d2)
         mapB = {}
         byid = {v.id: v for v in gB._vertices}
